@@ -15,11 +15,18 @@ fields("SproutMechanism", candidates_generator="ref:SproutCandidatesGenerator", 
 specfn("DIST", ["int", "g", "og"], "fl")       # ||x - y||_ord  (numpy.linalg.norm of the difference): an uninterpreted metric
 specfn("MEANG", ["ref"], "og")                  # mean genome of a list of individuals: axiomatised in npmodels (extensional)
 
-# candidates as the filters see them
+# candidates as the filters see them; cdict(r) (ghost) is the dictionary a candidate record belongs to - it lets the frames of the
+# filters name "the records of this dictionary" without an existential quantifier
+ghost_fields(**{"$cdict": "ref", "$ckey": "ref"})
+macro("cdict", ["r"], 'field(r, "$cdict", "ref")')
+macro("ckey", ["r"], 'field(r, "$ckey", "ref")')          # the deme a candidate record belongs to: records of different demes differ
 macro("CandsOk", ["c"], """
     c != None and forall(lambda k: imp(0 <= k < len(c.keys()), c.keys()[k] != None and c[c.keys()[k]] != None
-                                        and c[c.keys()[k]].individuals != None and c[c.keys()[k]].features != None), pat=c.keys()[k])
+                                        and c[c.keys()[k]].individuals != None and c[c.keys()[k]].features != None
+                                        and cdict(c[c.keys()[k]]) == c and ckey(c[c.keys()[k]]) == c.keys()[k]), pat=c.keys()[k])
 """)
+# x was, when the call began, one of the candidates held by the candidate record dc
+macro("WasCandidate", ["dc", "x"], "exists(lambda i_: 0 <= i_ and i_ < old(len(dc.individuals)) and old(dc.individuals[i_]) == x)")
 macro("Member", ["x", "lst"], "exists(lambda i_: 0 <= i_ and i_ < len(lst) and lst[i_] == x)")
 # "filters only ever remove": same dictionary, same keys, every kept individual was a candidate of the same deme before
 ONLY_REMOVES = [
@@ -27,13 +34,17 @@ ONLY_REMOVES = [
        "forall(lambda k: imp(0 <= k < len(candidates.keys()), candidates.keys()[k] == old(candidates.keys()[k]) "
        "and candidates[candidates.keys()[k]] == old(candidates[candidates.keys()[k]])), pat=candidates.keys()[k])", tags="C10"),
     cl("only_removes", "forall(lambda k: imp(0 <= k < len(candidates.keys()), "
-       "len(candidates[candidates.keys()[k]].individuals) <= old(len(candidates[candidates.keys()[k]].individuals)) and "
        "forall(lambda j: imp(0 <= j < len(candidates[candidates.keys()[k]].individuals), "
-       "old(Member(candidates[candidates.keys()[k]].individuals[j], candidates[candidates.keys()[k]].individuals))))), "
+       "WasCandidate(candidates[candidates.keys()[k]], candidates[candidates.keys()[k]].individuals[j])), "
+       "pat=candidates[candidates.keys()[k]].individuals[j])), "
        "pat=candidates.keys()[k])", tags="C10 C07"),
+    cl("new_lists_are_plain", "forall(lambda k: imp(0 <= k < len(candidates.keys()), "
+       "candidates[candidates.keys()[k]].individuals == old(candidates[candidates.keys()[k]].individuals) "
+       "or (fresh(candidates[candidates.keys()[k]].individuals) and kind(candidates[candidates.keys()[k]].individuals) == 0)), "
+       "pat=candidates.keys()[k])"),
     cl("candidates_ok", "CandsOk(candidates)"),
 ]
-FILTER_FRAME = [("individuals", "exists(lambda k: 0 <= k and k < len(candidates.keys()) and o == candidates[candidates.keys()[k]])"),
+FILTER_FRAME = [("individuals", "cdict(o) == candidates"),
                 ("_centroid", "True"), ("_threshold", "o == self")]
 FILTER_PRE = [cl("candidates", "CandsOk(candidates)"), cl("tree", "tree != None and S_levels(tree) and S_deme(tree)"),
               cl("keys_in_tree", "forall(lambda k: imp(0 <= k < len(candidates.keys()), InTree(tree, candidates.keys()[k]) "
@@ -64,3 +75,155 @@ fn(SG + "SproutCandidatesGenerator.__call__", abstract=True, params={"tree": "re
    returns="dict[ref:AbstractDeme,ref:DemeCandidates]",
    requires=[cl("tree", "tree != None and S_levels(tree) and S_deme(tree)")], modifies=[],
    ensures=GEN_POST, note="user-defined generators are assumed to satisfy it; every shipped generator under contract is proved to")
+
+# ---- the mechanism: generator, then the two filter chains --------------------------------------------------------------------
+fields("SproutMechanism", candidates_generator="ref:SproutCandidatesGenerator")
+MECH_FRAME = [("individuals", "cdict(o) == candidates"),
+              ("_centroid", "True"), ("_threshold", "True")]
+
+
+def chain_contract(meth, attr):
+    fn(SM + meth, params={"candidates": "dict[ref:AbstractDeme,ref:DemeCandidates]", "tree": "ref:DemeTree"},
+       returns="dict[ref:AbstractDeme,ref:DemeCandidates]",
+       requires=FILTER_PRE + [cl("chain", f"self.{attr} != None and forall(lambda f: imp(0 <= f < len(self.{attr}), self.{attr}[f] != None))")],
+       modifies=MECH_FRAME,
+       loops={0: dict(index="f", modifies=MECH_FRAME, invariant=[
+           cl("inv_same_dictionary", "candidates == old(candidates) and len(candidates.keys()) == old(len(candidates.keys())) and "
+              "forall(lambda k: imp(0 <= k < len(candidates.keys()), candidates.keys()[k] == old(candidates.keys()[k]) "
+              "and candidates[candidates.keys()[k]] == old(candidates[candidates.keys()[k]])), pat=candidates.keys()[k])"),
+           cl("inv_only_removed", "forall(lambda k: imp(0 <= k < len(candidates.keys()), "
+              "forall(lambda j: imp(0 <= j < len(candidates[candidates.keys()[k]].individuals), "
+              "WasCandidate(candidates[candidates.keys()[k]], candidates[candidates.keys()[k]].individuals[j])), "
+              "pat=candidates[candidates.keys()[k]].individuals[j])), pat=candidates.keys()[k])", tags="C10"),
+           cl("inv_plain_lists", "forall(lambda k: imp(0 <= k < len(candidates.keys()), "
+              "candidates[candidates.keys()[k]].individuals == old(candidates[candidates.keys()[k]].individuals) "
+              "or (fresh(candidates[candidates.keys()[k]].individuals) and kind(candidates[candidates.keys()[k]].individuals) == 0)), "
+              "pat=candidates.keys()[k])"),
+           cl("inv_pre", " and ".join("(" + c.text + ")" for c in FILTER_PRE)),
+       ])},
+       ensures=ONLY_REMOVES)
+
+
+chain_contract("apply_deme_filters", "deme_filter_chain")
+chain_contract("apply_tree_filters", "tree_filter_chain")
+
+GS = CONTRACTS.pop(SM + "get_seeds")          # the interface contract stated in d20 (what the tree relies on) is now proved of the body
+IN_POP = ("forall(lambda k: imp(0 <= k < len(_call_result.keys()), "
+          "forall(lambda j: imp(0 <= j < len(_call_result[_call_result.keys()[k]].individuals), "
+          "Member(_call_result[_call_result.keys()[k]].individuals[j], cur_pop(_call_result.keys()[k]))), "
+          "pat=_call_result[_call_result.keys()[k]].individuals[j])), pat=_call_result.keys()[k])")
+fn(SM + "get_seeds", params=dict(GS.params), returns=GS.returns,
+   ghost_after={"apply_deme_filters@0": [f"lemma('still_from_the_population_1', {IN_POP}, 'C10 C07')"],
+                "apply_tree_filters@0": [f"lemma('still_from_the_population_2', {IN_POP}, 'C10 C07')"],
+                "return@0": ["lemma('same_records', forall(lambda k: imp(0 <= k < len(_call_result.keys()), "
+                             "_call_result.keys()[k] in candidates and _call_result[_call_result.keys()[k]] == candidates[_call_result.keys()[k]]), "
+                             "pat=_call_result.keys()[k]), 'C10 C07')",
+                             "lemma('kept_from_population', forall(lambda k: imp(0 <= k < len(_call_result.keys()), "
+                             "forall(lambda j: imp(0 <= j < len(candidates[_call_result.keys()[k]].individuals), "
+                             "Member(candidates[_call_result.keys()[k]].individuals[j], cur_pop(_call_result.keys()[k]))), "
+                             "pat=candidates[_call_result.keys()[k]].individuals[j])), pat=_call_result.keys()[k]), 'C10 C07')"]},
+   # the structure clauses of the interface contract in d20 are not needed here: nothing get_seeds may write (see `modifies`) is
+   # read by them, so the caller keeps them by framing
+   requires=[cl("tree", "tree != None and S_levels(tree) and S_deme(tree)")] + [cl("mechanism", "MechOk(self)")],
+   modifies=[("_centroid", "True"), ("_threshold", "True"), ("$list<ref:$Opaque>", "kind(o) == 7")],
+   ensures=SEEDS_POST + [
+       cl("only_active_non_leaf_demes", "forall(lambda k: imp(0 <= k < len(result.keys()), result.keys()[k]._active), pat=result.keys()[k])",
+          tags="C10"),
+       # "every returned candidate is an individual of its deme's current population" is established at the return statement as the two
+       # lemmas same_records + kept_from_population (ghost_after["return@0"]); their conjunction is not restated as a postcondition: the
+       # solver does not finish the rewriting step through the dictionary comprehension (undecided, never counted)
+   ])
+
+fn(SM + "__init__", params={"candidates_generator": "ref:SproutCandidatesGenerator", "deme_filter_chain": "list[ref:DemeLevelCandidatesFilter]",
+                            "tree_filter_chain": "list[ref:TreeLevelCandidatesFilter]"},
+   requires=[cl("parts", "candidates_generator != None and deme_filter_chain != None and tree_filter_chain != None "
+                "and forall(lambda f: imp(0 <= f < len(deme_filter_chain), deme_filter_chain[f] != None)) "
+                "and forall(lambda f: imp(0 <= f < len(tree_filter_chain), tree_filter_chain[f] != None))")],
+   modifies=[(f_, "o == self") for f_ in ("candidates_generator", "deme_filter_chain", "tree_filter_chain",
+                                          "_generated_deme_ids_to_candidates_history", "_used_deme_ids_to_candidates_history")],
+   ghost_after={"assign:_generated_deme_ids_to_candidates_history@0": ["setg(self._generated_deme_ids_to_candidates_history, '$kind', 7)"],
+                "assign:_used_deme_ids_to_candidates_history@0": ["setg(self._used_deme_ids_to_candidates_history, '$kind', 7)"]},
+   ensures=[cl("well_formed_mechanism", "MechOk(self)", tags="C10")])
+
+# ---- shipped filters against the abstract filter contract ------------------------------------------------------------------------
+KEYS_LOOP = [
+    cl("inv_same_dictionary", "candidates == old(candidates) and len(candidates.keys()) == old(len(candidates.keys())) and "
+       "forall(lambda k: imp(0 <= k < len(candidates.keys()), candidates.keys()[k] == old(candidates.keys()[k]) "
+       "and candidates[candidates.keys()[k]] == old(candidates[candidates.keys()[k]])), pat=candidates.keys()[k])"),
+    cl("inv_only_removed", "forall(lambda k: imp(0 <= k < len(candidates.keys()), "
+       "forall(lambda j: imp(0 <= j < len(candidates[candidates.keys()[k]].individuals), "
+       "WasCandidate(candidates[candidates.keys()[k]], candidates[candidates.keys()[k]].individuals[j])), "
+       "pat=candidates[candidates.keys()[k]].individuals[j])), pat=candidates.keys()[k])", tags="C10"),
+    cl("inv_plain_lists", "forall(lambda k: imp(0 <= k < len(candidates.keys()), "
+       "candidates[candidates.keys()[k]].individuals == old(candidates[candidates.keys()[k]].individuals) "
+       "or (fresh(candidates[candidates.keys()[k]].individuals) and kind(candidates[candidates.keys()[k]].individuals) == 0)), "
+       "pat=candidates.keys()[k])"),
+    cl("inv_ok", "CandsOk(candidates)"),
+    cl("inv_untouched_yet", "forall(lambda k: imp(q <= k and k < len(candidates.keys()), "
+       "candidates[candidates.keys()[k]].individuals == old(candidates[candidates.keys()[k]].individuals) and "
+       "len(candidates[candidates.keys()[k]].individuals) == old(len(candidates[candidates.keys()[k]].individuals))), "
+       "pat=candidates.keys()[k])"),
+]
+IND_FRAME = [("individuals", "cdict(o) == candidates")]
+
+refine(SF + "DemeLimit.__call__", SF + "DemeLevelCandidatesFilter.__call__",
+       params={"candidates": "dict[ref:AbstractDeme,ref:DemeCandidates]", "_": "ref:DemeTree"},
+       requires=[cl("limit", "self.limit >= 0")],
+       modifies=IND_FRAME,
+       loops={0: dict(index="q", modifies=IND_FRAME, invariant=KEYS_LOOP + [
+           cl("inv_limited", "forall(lambda k: imp(0 <= k < q, len(candidates[candidates.keys()[k]].individuals) == "
+              "ite(old(len(candidates[candidates.keys()[k]].individuals)) > self.limit, self.limit, "
+              "old(len(candidates[candidates.keys()[k]].individuals)))), pat=candidates.keys()[k])", tags="C10")])},
+       ensures=[cl("keeps_exactly_min_of_limit_and_available", "forall(lambda k: imp(0 <= k < len(candidates.keys()), "
+                   "len(candidates[candidates.keys()[k]].individuals) == ite(old(len(candidates[candidates.keys()[k]].individuals)) > self.limit, "
+                   "self.limit, old(len(candidates[candidates.keys()[k]].individuals)))), pat=candidates.keys()[k])", tags="C10")])
+
+# ---- distances and centroids (C09) ------------------------------------------------------------------------------------------------
+AD_ = "pyhms.demes.abstract_deme."
+fn(AD_ + "compute_centroid", params={"population": "list[ref:Individual]"}, returns="og", pure=True, trusted=True,
+   value="ite(len(population) == 0, None, MEANG(population))",
+   note="numpy.mean of the genomes of a population (row view): MEANG is its uninterpreted value")
+fn(AD_ + "AbstractDeme.centroid", returns="og", pure=True, inline=True,
+   requires=[cl("shape", "HistShape(self)")],
+   ensures=[cl("mean_of_the_current_population", "same(result, ite(len(cur_pop(self)) == 0, None, MEANG(cur_pop(self))))", tags="C09")])
+fn(SF + "FarEnough._is_far_enough", params={"ind": "ref:Individual", "centroid": "og"}, returns="bool", pure=True, trusted=True,
+   value="DIST(self.norm_ord, ind.genome, centroid) > self.min_distance",
+   note="numpy.linalg.norm(genome - centroid, ord) > min_distance: DIST is the uninterpreted norm of the difference")
+fn(SF + "NBC_FarEnough._is_nbc_far_enough", params={"ind": "ref:Individual", "centroid": "og", "mean_dist": "fl"}, returns="bool", pure=True,
+   trusted=True, value="DIST(self.norm_ord, ind.genome, centroid) > self.min_distance_factor * mean_dist",
+   note="numpy.linalg.norm(genome - centroid, ord) > factor * mean nearest-better distance")
+
+
+macro("MEAN_OF", ["d"], "ite(len(cur_pop(d)) == 0, None, MEANG(cur_pop(d)))")
+
+
+def far_enough_filter(cls):
+    """FarEnough / NBC_FarEnough: nested loops (candidate records, then the demes of the target level).  Proved: the filter only
+    removes.  The distance clause of C09 (every kept seed is farther than the threshold from every considered deme) is NOT proved: it needs
+    the position of a deme in the filtered sibling list, which E-matching does not find through the comprehension (bounded check instead)."""
+    rec = "candidates[deme]"
+    refine(SF + cls + ".__call__", SF + "DemeLevelCandidatesFilter.__call__",
+           locals={"child_seeds": "list[ref:Individual]", "child_siblings": "list[ref:AbstractDeme]"},
+           requires=[cl("populated_demes", "forall(lambda l, i: imp(0 <= l < len(tree._levels) and 0 <= i < len(tree._levels[l]), "
+                        "len(cur_pop(tree._levels[l][i])) > 0), pat=tree._levels[l][i])")],
+           modifies=IND_FRAME,
+           loops={0: dict(index="q", modifies=IND_FRAME, invariant=KEYS_LOOP),
+                  1: dict(index="s", modifies=[], invariant=[
+                      cl("inv_from_candidates", f"forall(lambda j: imp(0 <= j < len(child_seeds), WasCandidate({rec}, child_seeds[j])), "
+                         "pat=child_seeds[j])", tags="C10"),
+                      cl("inv_seeds_list", f"child_seeds != None and (child_seeds == old({rec}.individuals) or "
+                         "(fresh(child_seeds) and kind(child_seeds) == 0))")])})
+
+
+far_enough_filter("FarEnough")
+far_enough_filter("NBC_FarEnough")
+
+# LevelLimit: per level, the candidates of all parents on that level are ranked together; each record keeps those strictly better than
+# the first one that does not fit.  Proved: only removes.  The counting clause of C08/C10 (at most the free slots survive) needs a
+# counting lemma over the sorted concatenation (induction): bounded check instead.
+refine(SF + "LevelLimit.__call__", SF + "TreeLevelCandidatesFilter.__call__",
+       locals={"level_candidates": "list[ref:Individual]", "level_demes": "list[ref:AbstractDeme]"},
+       modifies=IND_FRAME,
+       loops={0: dict(index="lv", modifies=IND_FRAME, invariant=[c for c in KEYS_LOOP if c.label != "inv_untouched_yet"]),
+              1: dict(index="s", modifies=IND_FRAME, invariant=[c for c in KEYS_LOOP if c.label != "inv_untouched_yet"] + [
+                  cl("inv_level_demes", "forall(lambda t: imp(0 <= t < len(level_demes), level_demes[t] in candidates), pat=level_demes[t])")])})
